@@ -556,11 +556,11 @@ func ReplayFile(path string) int {
 		fmt.Fprintf(os.Stderr, "unknown check %q\n", v.Property)
 		return 2
 	}
-	vec := v.WitnessChoices
+	vec, labels := v.WitnessChoices, v.WitnessLabels
 	if vec == nil {
-		vec = v.Choices
+		vec, labels = v.Choices, v.Labels
 	}
-	f, cs, _ := Replay(ck.Body, vec, "quick")
+	f, cs, _ := Replay(ck.Body, labels, vec, "quick")
 	fmt.Printf("case: %s\n", cs)
 	if f == nil {
 		fmt.Println("replay: property holds on this case now")
